@@ -19,7 +19,7 @@ MUTANT_DIR = os.path.join(kernel.VERIF, "mutants")
 # mutant id -> checks that must report it
 EXPECT = {
     "M1": ["C13"], "M2": ["C13"], "M3": ["C13"], "M4": ["C13"], "M5": ["C13"],
-    "M6": ["C12"], "M7": ["C12"], "M8": ["C12", "C11"], "M9": ["C03"], "M10": ["C03"], "M11": ["C11"],
+    "M6": ["C12"], "M7": ["C12"], "M8": ["C11"], "M9": ["C03"], "M10": ["C03"], "M11": ["C11"],
     "M12": ["C16"], "M13": ["C16"], "M14": ["C16"],
 }
 
